@@ -768,10 +768,11 @@ def tempo_bpm(u):
     return int(b)
 
 
-def tempo_part(pid, pidx, kind, pickup, carries):
+def tempo_part(pid, pidx, kind, pickup, carries, tacet=False):
     """one part of 2/4 (optional one-quarter pickup, two bars) whose divisions follow `kind`; candidate tempo
     positions: every quarter, the first division after every divisions value starts to hold, the last division
     of the part; `carries(i, u)` says whether the i-th candidate (ascending) gets a Tempo object.
+    tacet: the part has no notes at all (one rest per quarter instead); measures, signatures and Tempo objects as usual.
     Returns (part spec, candidate positions in quarters relative to the first downbeat)."""
     u0 = -1 if pickup else 0
     cuts = [u0] + [u for u, _ in kind[1:]] + [TEMPO_END]
@@ -802,6 +803,10 @@ def tempo_part(pid, pidx, kind, pickup, carries):
         if carries(i, u):
             objs.append(tempo(T(u), tempo_bpm(u), "q"))
     base = 43 + 12 * pidx
+    if tacet:
+        for k, u in enumerate(range(u0, TEMPO_END)):
+            objs.append(rest("p%dr%d" % (pidx, k), T(u), T(u + 1), 1))
+        return part(pid, [(a_t, d) for _, _, d, a_t in tl], objs), cand
     for k, u in enumerate(range(u0, TEMPO_END)):
         objs.append(note("p%dq%d" % (pidx, k), T(u), T(u + 1), base + 2 * (k % 3), 1))
     for k, u in enumerate(([-1] if pickup else []) + [0, 2]):
@@ -809,9 +814,10 @@ def tempo_part(pid, pidx, kind, pickup, carries):
     return part(pid, [(a_t, d) for _, _, d, a_t in tl], objs), cand
 
 
-def tempo_score(kinds, pickups, pattern, grouped=False):
+def tempo_score(kinds, pickups, pattern, grouped=False, tacet=()):
     """score of len(kinds) parts; pattern: ("only", c) = part c carries all its candidates, ("alt", k) = part c
-    carries its i-th candidate iff (i + c + k) is a multiple of the number of parts, ("one", c, i) = a single mark"""
+    carries its i-th candidate iff (i + c + k) is a multiple of the number of parts, ("one", c, i) = a single mark;
+    tacet: indices of the parts without notes (rests only)"""
     n = len(kinds)
 
     def carries(c):
@@ -821,7 +827,7 @@ def tempo_score(kinds, pickups, pattern, grouped=False):
             return lambda i, u: (i + c + pattern[1]) % n == 0
         return lambda i, u: c == pattern[1] and i == pattern[2]
 
-    parts = [tempo_part("P%d" % (c + 1), c, kinds[c], pickups[c], carries(c))[0] for c in range(n)]
+    parts = [tempo_part("P%d" % (c + 1), c, kinds[c], pickups[c], carries(c), tacet=c in tacet)[0] for c in range(n)]
     if grouped:
         parts = [group(parts[:2])] + parts[2:]
     return {"parts": parts}
@@ -860,6 +866,59 @@ def gen_tempoparts(kinds=None, single_kinds=None, triples=TEMPO_TRIPLES):
                 yield dict(score=tempo_score(ks3, pk, pattern, grouped=i % 2 == 1),
                            tag="tempoparts kinds=%s pickups=%s marks=%s" % ([list(map(list, k)) for k in ks3], list(pk), list(pattern)))
                 i += 1
+
+
+
+def _tacet_pickups(n, tacet):
+    """pickup vectors of n parts: the full product, except those in which a part without notes has a pickup while
+    no part with notes has one (whether rests alone make an anacrusis of the score is left open)"""
+    for pk in product((False, True), repeat=n):
+        if any(pk[c] for c in tacet) and not any(pk[c] for c in range(n) if c not in tacet):
+            continue
+        yield pk
+
+
+def gen_tempotacet(tacet_kinds=None, sounding_kinds=None, single_kinds=None, triples=TEMPO_TRIPLES[:2]):
+    """scores in which some (not all) parts have NO notes (tacet: rests, measures, signatures only) and tempo marks
+    are carried by the tacet parts, by the sounding parts or by both: the meta objects of a part do not depend on
+    the part having notes (tempo marks are global; the quarter map of the carrier gives the musical position)"""
+    tacet_kinds = TEMPO_KINDS if tacet_kinds is None else tacet_kinds
+    sounding_kinds = TEMPO_KINDS[:2] if sounding_kinds is None else sounding_kinds
+    single_kinds = tacet_kinds[:3] if single_kinds is None else single_kinds
+    i = 0
+    # (a) two parts, one of them tacet (first or second): many marks
+    for tc in (0, 1):
+        for kt in tacet_kinds:
+            for ksnd in sounding_kinds:
+                kinds = (kt, ksnd) if tc == 0 else (ksnd, kt)
+                for pk in _tacet_pickups(2, (tc,)):
+                    for pattern in (("only", 0), ("only", 1), ("alt", 0), ("alt", 1)):
+                        yield dict(score=tempo_score(kinds, pk, pattern, grouped=i % 3 == 2, tacet=(tc,)),
+                                   tag="tempotacet tacet=%s kinds=%s pickups=%s marks=%s" % (
+                                       [tc], [list(map(list, k)) for k in kinds], list(pk), list(pattern)))
+                        i += 1
+    # (b) two parts, exactly one mark in the score, carried by the tacet part: every candidate position
+    for tc in (0, 1):
+        for kt in single_kinds:
+            ksnd = sounding_kinds[0]
+            kinds = (kt, ksnd) if tc == 0 else (ksnd, kt)
+            for pk in _tacet_pickups(2, (tc,)):
+                ncand = len(tempo_part("P", tc, kt, pk[tc], lambda i, u: False, tacet=True)[1])
+                for j in range(ncand):
+                    yield dict(score=tempo_score(kinds, pk, ("one", tc, j), grouped=i % 3 == 2, tacet=(tc,)),
+                               tag="tempotacet tacet=%s kinds=%s pickups=%s marks=%s" % (
+                                   [tc], [list(map(list, k)) for k in kinds], list(pk), ["one", tc, j]))
+                    i += 1
+    # (c) three parts, every non-empty proper subset of them tacet
+    for tr in triples:
+        ks3 = tuple(TEMPO_KINDS[x % len(TEMPO_KINDS)] for x in tr)
+        for tacet in ((0,), (1,), (2,), (0, 1), (0, 2), (1, 2)):
+            for pk in ((False, False, False), (True, True, True)):
+                for pattern in (("only", 0), ("only", 1), ("only", 2), ("alt", 0), ("alt", 1), ("alt", 2)):
+                    yield dict(score=tempo_score(ks3, pk, pattern, grouped=i % 2 == 1, tacet=tacet),
+                               tag="tempotacet tacet=%s kinds=%s pickups=%s marks=%s" % (
+                                   list(tacet), [list(map(list, k)) for k in ks3], list(pk), list(pattern)))
+                    i += 1
 
 
 # ---------------------------------------------------------------------------------------------
